@@ -407,6 +407,10 @@ func (vc *VC) havocAllHeaps(st *State) {
 			vc.assumes["objects of the types declared immutable in the contract files are not written by unknown (dynamic / interface / external) callees"] = true
 			continue
 		}
+		if vc.specs.isSetGhostHeap(n) {
+			vc.assumes["ghost variables assigned by set clauses change only where a set clause says so (unknown callees do not call back into functions whose contracts carry set clauses)"] = true
+			continue
+		}
 		if vc.specs.isPrivateHeap(n) {
 			vc.assumes["fields of the struct types declared private in the contract files are written only by functions of their own package (unknown callees do not call back into it)"] = true
 			continue
